@@ -639,7 +639,7 @@ func (fr *Frame) atCallAsserts(st *State, callee string, nth int, callVars map[s
 			vars[k] = v
 		}
 		for k, v := range callVars {
-			vars["arg."+k] = v
+			vars["arg_"+k] = v
 		}
 		env := &Env{fr: fr, st: st, old: fr.entry, vars: vars}
 		fr.v.emit(fr, st, "atcall", cl.Name, env.evalBool(cl.Expr), "at call "+callee)
